@@ -409,7 +409,8 @@ def near(rng, text, kind, count=None):
 
 
 NEAR_KINDS = ("nonascii", "case", "space")
-NUMS = ["1", "0.5", "0.1", "2", "-3.25", "1E+2", "100", "0.25", "7", "-1", "1000", "0.001"]
+NUMS = ["1", "0.5", "0.1", "2", "-3.25", "1E+2", "100", "0.25", "7", "-1", "1000", "0.001", "1E+12", "-2.5E-9", "123456.789",
+        "0.3333333333333333"]
 DEFINITIONS = ["INT 0 100", "INT 0 65535", "STRING", "FLOAT 0 1", 'ENUM "a","b"', "HEX 0 255"]
 
 
@@ -1081,8 +1082,51 @@ def near_name_edits(kind):
     return out
 
 
+# --------------------------------------------------------------------------- numbers at the edge of "differ as doubles"
+NUM_EDGE_KINDS = ("ulp-up", "ulp-down", "rel-2^-40", "rel-1e-10", "rel-2^-33")
+
+
+def near_num(rng, old, kind):
+    """a Decimal whose double value differs from float(old) by the smallest amounts: the neighbouring double in either
+    direction, or a relative step of 2^-40 / 1e-10 / 2^-33 (from 0: the smallest subnormal resp. 1e-300).  None if the
+    double value would not change or leave the finite range."""
+    import math
+    x = float(old)
+    if kind == "ulp-up":
+        y = math.nextafter(x, math.inf)
+    elif kind == "ulp-down":
+        y = math.nextafter(x, -math.inf)
+    elif x == 0.0:
+        y = rng.choice([5e-324, -5e-324, 1e-300])
+    else:
+        y = x * (1 + {"rel-2^-40": 2.0 ** -40, "rel-1e-10": 1e-10, "rel-2^-33": 2.0 ** -33}[kind] * rng.choice([1, -1]))
+    if y == x or math.isinf(y) or math.isnan(y):
+        return None
+    new = D(y)                      # exact: float(new) == y
+    assert float(new) == y and float(new) != x
+    return new
+
+
+def num_edge_edit(field, kind):
+    def e(g, db):
+        f, sg = pick_signal(g, db)
+        old = getattr(sg, field)
+        if old is None:
+            return None
+        new = near_num(g.rng, old, kind)
+        if new is None or (field == "factor" and float(new) == 0):
+            return None
+        setattr(sg, field, new)
+        g.count("numeric-edge:%s" % kind)
+        return dict(cat=None, chain=[f.name, sg.name], kinds=CHG, few=True, key="numeric-edge-edit",
+                    what="signal %s: %r -> %r (doubles %r -> %r, %s)" % (field, old, new, float(old), float(new), kind))
+    e.__name__ = "numedge_%s_%s" % (field, kind)
+    return e
+
+
 def near_catalogue():
     cat = [near_text_edit(label, kind) for label in TEXT_LABELS for kind in NEAR_KINDS]
+    cat += [num_edge_edit(field, kind) for field in ("factor", "offset", "min", "max") for kind in NUM_EDGE_KINDS]
     for kind in NEAR_KINDS:
         cat += near_name_edits(kind)
     return cat
@@ -1109,7 +1153,8 @@ def run(chk):
                 "values, define definitions and defaults) edited between non-empty texts that differ ONLY in non-ASCII characters (2-/3-byte "
                 "UTF-8: one replaced, removed or inserted; precomposed vs combining), only in the case of one letter, or only in blanks "
                 "(leading, trailing, inner, tab, newline), and objects/entries added whose NAME differs from an existing one in that way "
-                "(4 ignore settings each), same-double Decimal edits, related pairs (0..3 edits + shuffle), unrelated pairs "
+                "(4 ignore settings each), factor/offset/min/max edited to the neighbouring double (either direction) and by relative steps of "
+                "2^-40, 1e-10, 2^-33 at magnitudes from 1e-9 to 1e12 and from 0 (key numeric-edge-edit), same-double Decimal edits, related pairs (0..3 edits + shuffle), unrelated pairs "
                 "(incl. an identifier reused under another name), crosswise pairs (frame names and identifiers drawn independently "
                 "from pools of 5: equal and different frame counts, several frames meeting one frame, also duplicates inside a "
                 "matrix) judged with a transcription of the pairing rule, operands swapped, 8 cancompare flag sets on dumped "
@@ -1142,7 +1187,7 @@ def run(chk):
     gen = Gen(C, rng)
     gen.count = chk.count
     CAT = catalogue() + near_catalogue()
-    n_mat = 34 if not thorough else 300
+    n_mat = 30 if not thorough else 300
     tie_budget_per_edit = 2 if not thorough else 4
     lines, expect, info = [], [], []
 
